@@ -16,6 +16,8 @@ func main() {
 		wrapMain(os.Args[2:])
 	case "ez":
 		ezMain(os.Args[2:])
+	case "fw":
+		fwMain(os.Args[2:])
 	default:
 		fmt.Fprintln(os.Stderr, "unknown subcommand", os.Args[1])
 		os.Exit(2)
